@@ -16,7 +16,17 @@ class SPEC:
             "traces up to length 200 over 3 keys including flows that wait for correlation (retry / drop path), about 5 % of whose records lack one of "
             "the non-pod correlate fields. The heap array is compared "
             "position by position with the container/heap model; the declarative scheduling spec (Ipfix.C06.checkSched/checkRec/checkScan/"
-            "expectedExpiry, independent of the heap) is evaluated on every implementation snapshot. Non-trivial = a scan with at least one due item.")
+            "expectedExpiry, independent of the heap) is evaluated on every implementation snapshot. Every second history creates the process from "
+            "the same configuration with its lists in another order (`cfg<n>`). REFUSED records (judged on the implementation's snapshots; the "
+            "model has no such record): between ordinary records, clock advances and scans a held flow - or a five-tuple not held - is sent a "
+            "record whose template lacks one of the eight statistics elements, tcpState, flowEndReason or flowEndSeconds (`omit=`); when the "
+            "aggregation refuses it (`err`) the snapshot that follows must be the previous one (Ipfix.C06.checkIdle: held keys, flow count and "
+            "every item's deadlines, readiness and retries unchanged) and the later scans and advertised expiries are judged against it; the shape "
+            "`two flows, scan at the first one's active deadline, refused record for it, scan after the second one's deadline` for every element and "
+            "several timeout pairs, plus random traces. MANY flows (five-tuples 7..4000, synthesized): 150..400 flows created in data sets of up to "
+            "40 records, some of them later than the others, one clock advance past the deadline of the earlier ones and ONE scan which must hand "
+            "all of these to the callback, then the advertised expiry, then a scan for the rest. "
+            "Non-trivial = a scan with at least one due item.")
     assumptions = ["active and inactive timeouts > 0 (with a zero timeout a re-armed item is due again at once; the scan still terminates since fix 7354df1)"]
     trusted = ["the overlay's mechanical rewrite time.Now() -> verifNow() in pkg/intermediate"]
 
@@ -107,9 +117,104 @@ def gen_cases(rng, tier):
     return cases
 
 
+def refused_cases(rng, tier):
+    """records the aggregation refuses (`omit=`: the record's template lacks a configured element). Outside the model
+    (in_domain=False), judged by the scheduling specification (judge=True)."""
+    cases = []
+    stats = lambda n: [x * n for x in STATS]
+    # the shape: two flows; a scan at the first one's active deadline re-arms it (its earliest deadline is now the
+    # inactive one, it is the root of the heap again); a refused record for it; a scan after the second one's
+    # deadline has passed
+    for a, i, t2, t_scan, t_ref, t_end in ((1000, 1500, 700, 1100, 1300, 1800), (100, 150, 70, 110, 130, 180), (100, 250, 40, 100, 120, 150),
+                                           (100, 120, 90, 100, 110, 195), (200, 300, 150, 250, 280, 360)):
+        for name in AG.REFUSED_WITHOUT:
+            for k1, k2 in ((1, 2), (3, 1)):
+                ops = ["agg new %d %d" % (a, i), AG.intra(k1, 100, 101, stats(1)), "agg snap", "agg adv %d" % t2, AG.intra(k2, 100, 102, stats(2)), "agg snap",
+                       "agg adv %d" % (t_scan - t2), "agg scan - 0", "agg snap", "agg expiry",
+                       "agg adv %d" % (t_ref - t_scan), AG.omit(AG.intra(k1, 100, 103, stats(3)), [name]), "agg snap", "agg expiry",
+                       "agg adv %d" % (t_end - t_ref), "agg snap", "agg scan - 0", "agg snap", "agg expiry",
+                       AG.intra(k1, 100, 104, stats(4)), "agg snap", "agg adv %d" % i, "agg scan - 1", "agg snap", "agg expiry"]
+                cases.append(Case(ops, "refused-shape", True, False, True))
+    # random traces: ordinary records (single-stream flows, so every held flow is ready), advances, scans - and refused records,
+    # most of them for a five-tuple which is certainly held (its inactive deadline has not passed)
+    for _ in range(300 if tier == "quick" else 6000):
+        a, i = rng.choice([(A, I), (A, I), (100, 150), (100, 120), (1000, 1500), (100, 100), (250, 100)])
+        ops = ["agg new %d %d" % (a, i)]
+        now, cnt, seen = 0, 0, {}
+        keys = [1, 2, 3] if rng.random() < 0.7 else [1, 2, 3, 6, 7, 8, 9]
+        for _ in range(rng.randint(6, 120 if tier == "thorough" else 80)):
+            r = rng.random()
+            if r < 0.35:
+                k = rng.choice(keys)
+                cnt += 1
+                ops += [AG.intra(k, 100, 100 + cnt, stats(cnt)), "agg snap"]
+                seen[k] = now
+            elif r < 0.55:
+                held = [k for k in keys if k in seen and now - seen[k] < i]
+                k = rng.choice(held) if held and rng.random() < 0.85 else rng.choice(keys)
+                cnt += 1
+                names = [rng.choice(AG.REFUSED_WITHOUT)] if rng.random() < 0.8 else rng.sample(AG.REFUSED_WITHOUT, 2)
+                ops += [AG.omit(AG.intra(k, 100, 100 + cnt, stats(cnt)), names), "agg snap"]
+                if rng.random() < 0.3:
+                    ops.append("agg expiry")
+            elif r < 0.8:
+                d = rng.choice([0, 1, a - 1, a, a + 1, abs(i - a), i, i + 1, a // 2, 20])
+                now += d
+                ops += ["agg adv %d" % d, "agg snap"]
+            else:
+                ops += ["agg scan %s %d" % (rng.choice(["-", "-", "-", "1", "2", "1,2"]), rng.choice([0, 1])), "agg snap", "agg expiry"]
+        cases.append(Case(ops, "refused-random", True, False, True))
+    return cases
+
+
+def many_cases(rng, tier):
+    """hundreds of flows due in ONE scan (five-tuples 7..4000 of the engine)"""
+    cases = []
+    stats = lambda n: [x * (n % 1000 + 1) for x in STATS]
+
+    def feed(ops, keys, cnt):
+        # data sets of up to 40 records, a few records alone
+        j = 0
+        while j < len(keys):
+            n = rng.choice([1, 7, 25, 40, 40])
+            part = keys[j:j + n]
+            j += n
+            recs = [AG.intra(k, 100, 101 + cnt + x, stats(k)) for x, k in enumerate(part)]
+            cnt += len(part)
+            ops += [AG.msg_op(recs) if len(recs) > 1 else recs[0], "agg snap"]
+        return cnt
+
+    for c in range(6 if tier == "quick" else 40):
+        n = [150, 200, 129, 257, 300, 400][c] if c < 6 else rng.randint(150, 400)
+        a, i = rng.choice([(A, I), (100, 150), (1000, 1500), (250, 100)])
+        keys = rng.sample(range(7, 4001), n)
+        later = rng.choice([0, 0, 10, 60]) if c != 1 else 0
+        ops = ["agg new %d %d" % (a, i)]
+        cnt = feed(ops, keys, 0)
+        first = min(a, i)
+        if later:
+            # some flows created later: not due at the scan
+            d = rng.choice([1, first // 2, first - 1])
+            ops += ["agg adv %d" % d, "agg snap"]
+            cnt = feed(ops, rng.sample([k for k in range(7, 4001) if k not in keys], later), cnt)
+            if rng.random() < 0.5:     # ... and some of the early flows get a record in between
+                cnt = feed(ops, rng.sample(keys, 20), cnt)
+            ops += ["agg adv %d" % (first - d + rng.choice([0, 0, 1])), "agg snap"]
+        else:
+            ops += ["agg adv %d" % (first + rng.choice([0, 0, 1, 30])), "agg snap"]
+        ops += ["agg scan - %d" % rng.choice([0, 1]), "agg snap", "agg expiry"]
+        ops += ["agg adv %d" % max(a, i), "agg snap", "agg scan - 0", "agg snap", "agg expiry", "agg adv %d" % (a + i), "agg scan - 0", "agg snap", "agg expiry"]
+        cases.append(Case(ops, "many-flows", True, True))
+    return cases
+
+
 def run(ctx):
     rng = random.Random(ctx.seed * 1000003 + 6)
     cases = gen_cases(rng, ctx.tier)
+    # own streams of random numbers: the histories above are the ones the seed generated before
+    cases += refused_cases(random.Random(ctx.seed * 1000003 + 606), ctx.tier)
+    cases += many_cases(random.Random(ctx.seed * 1000003 + 607), ctx.tier)
+    AG.with_cfg(cases)
     res = run_simple(ctx, cases, "C06", chk_filter=lambda op: True, stateful_chk=True,
                      signature=lambda c, oi, v, agrees: "C06:%s" % " ".join(v.split(" ")[:3]))
     res["notes"].append("all traces of length <= %d over the 9-symbol alphabet on 2 keys enumerated" % (5 if ctx.tier == "quick" else 6))
